@@ -753,6 +753,25 @@ func (s *SecureChannel) handleOpenSecureChannelRequest(reqID uint32, svc ua.Requ
 		return ua.StatusBadSecureChannelTokenUnknown
 	}
 
+	// The mode has to fit the policy the request was secured with, and the
+	// pair has to be one the server offers.
+	policyNone := s.cfg.SecurityPolicyURI == ua.SecurityPolicyURINone
+	switch req.SecurityMode {
+	case ua.MessageSecurityModeNone:
+		if !policyNone {
+			return ua.StatusBadSecurityModeRejected
+		}
+	case ua.MessageSecurityModeSign, ua.MessageSecurityModeSignAndEncrypt:
+		if policyNone {
+			return ua.StatusBadSecurityModeRejected
+		}
+	default:
+		return ua.StatusBadSecurityModeRejected
+	}
+	if s.cfg.AcceptSecurity != nil && !s.cfg.AcceptSecurity(s.cfg.SecurityPolicyURI, req.SecurityMode) {
+		return ua.StatusBadSecurityPolicyRejected
+	}
+
 	s.cfg.Lifetime = req.RequestedLifetime
 	s.cfg.SecurityMode = req.SecurityMode
 
